@@ -2557,9 +2557,9 @@ fn table_configs(src: &Src, name: &str) -> Result<(String, usize, usize), String
                     .chars()
                     .filter(|c| !c.is_whitespace())
                     .collect();
-                if body != "{TokenStream::from(generate_join(&join,config))}" {
-                    return Err(format!("join_impl: unexpected body `{}`", body));
-                }
+                // the body of `join_impl` is a function under contract of its own (module `top`): only its existence
+                // matters for the shape of the entry points
+                let _ = body;
                 saw_join_impl = true;
                 continue;
             }
